@@ -119,13 +119,13 @@ CLASS_SPACE = {
 }
 CFG_DEFAULT = {"badHash": 0, "hookKind": "fn", "explicit": False, "baseApi": "attrS", "baseSlots": False,
                "mid": "none", "hiddenFrozen": False, "collectByMro": False, "frozenAlias": False,
-               "fieldApi": "ib", "emptyBase": False, "containers": False, "identityTr": False}
+               "fieldApi": "ib", "emptyBase": False, "containers": False, "identityTr": False, "hostile": None}
 NAMES = ["a", "b", "c", "d", "e"]
 BASE_NAMES = ["p", "q", "r"]
 
 RULE = ("cases = class options as written (api attr.s/define/make_class x these= x auto_attribs x slots x frozen x "
         "kw_only x cache_hash x auto_exc/exception base x auto_detect x cmp/eq/order x hash/unsafe_hash x init/repr/str "
-        "x class on_setattr x field_transformer (26 named ones: reorder / drop / add an attribute / kw_only, default, init, "
+        "x class on_setattr x hostile-but-valid user objects in every role (9 kinds x 10 roles, harness-only) x field_transformer (26 named ones: reorder / drop / add an attribute / kw_only, default, init, "
         "on_setattr evolved to set or cleared for all or the leading fields; free-form combinations in the random stream) x own __setattr__/__eq__/__hash__/__init__/__repr__ x frozen base) x "
         "inherited attributes x fields as written (bare annotation / default / factory / @default / init / kw_only / "
         "cmp,eq,order incl. key callables / hash incl. non-bool / on_setattr hook,NO_OP / type= / annotation / validator "
@@ -137,6 +137,13 @@ RULE = ("cases = class options as written (api attr.s/define/make_class x these=
         "pre/post hooks, 3-level chains, plain classes in between, both collection modes), as generated and with one "
         "change to the leaf class. non-trivial = a rule of the table applies or the spec has >=1 field; distinct = distinct JSON case")
 ASSUMPTIONS = [
+    "user-supplied objects (class / field hooks, validators, converters, factories, eq/order keys, defaults, types, metadata "
+    "values, the field_transformer) also come as hostile-but-valid instances -- callables that are instances; unhashable; "
+    "falsy via __bool__ / __len__; equal to everything / to None; raising from __eq__, __bool__, __hash__, __len__ -- a "
+    "harness-only variation the model is independent of (same specification, same verdict). 18 of the 90 (role, kind) pairs "
+    "are not generated because the pinned tree itself truth-tests or ==-compares those objects (HOSTILE_EXCLUDED lists "
+    "them with the reason): raising __bool__/__len__ on hooks, validators, converters, keys; falsy hooks; class hooks and "
+    "converters with raising / promiscuous __eq__",
     "the decorator is applied as a function call to a class made with type(): field errors (class body) come before "
     "decorator-argument errors; with decorator syntax Python evaluates the decorator expression first",
     "single-inheritance shapes only (attrs base <- optional plain class <- class); C3 linearisation is CPython's",
@@ -279,6 +286,101 @@ def _hook_value(kind, cls_level=False):
 _B3 = {"t": True, "f": False}
 
 
+# ------------------------------------------------------------------------------------------ hostile-but-valid user objects
+class Boom(Exception):
+    """raised by a dunder of a hostile object that attrs has no business calling"""
+
+
+def _raiser(what):
+    def f(self, *a):
+        raise Boom(what)
+    return f
+
+
+HOSTILE_KINDS = ["unhashable", "falsyBool", "falsyLen", "raisingEq", "raisingBool", "raisingHash", "raisingLen",
+                 "eqAll", "eqNone"]
+_ROLE_CALL = {
+    "clsHook": lambda self, inst, a, v: v, "fldHook": lambda self, inst, a, v: v,
+    "validator": lambda self, inst, a, v: None, "converter": lambda self, v: v, "factory": lambda self: [],
+    "key": lambda self, v: v, "default": None, "type": None, "metadata": None,
+}
+_HOSTILE_CLASSES: dict = {}
+
+
+def hostile(role, kind):
+    """a fresh object that can stand for `role` in a specification (a callable *instance* where a callable is
+    expected, an arbitrary value otherwise) and is unpleasant in one way: unhashable, falsy, equal to everything,
+    or raising from __eq__ / __bool__ / __hash__ / __len__.  Nothing about a class definition needs those dunders."""
+    cls = _HOSTILE_CLASSES.get((role, kind))
+    if cls is None:
+        ns = {"__repr__": lambda self, _r=f"<{role}:{kind}>": _r}
+        call = _ROLE_CALL.get(role)
+        if call is not None:
+            ns["__call__"] = call
+        if kind == "unhashable":
+            ns["__eq__"] = lambda self, o: self is o
+            ns["__hash__"] = None
+        elif kind == "falsyBool":
+            ns["__bool__"] = lambda self: False
+        elif kind == "falsyLen":
+            ns["__len__"] = lambda self: 0
+        elif kind == "raisingEq":
+            ns["__eq__"] = _raiser("__eq__")
+            ns["__ne__"] = _raiser("__ne__")
+            ns["__hash__"] = lambda self: 1
+        elif kind == "raisingBool":
+            ns["__bool__"] = _raiser("__bool__")
+        elif kind == "raisingHash":
+            ns["__hash__"] = _raiser("__hash__")
+        elif kind == "raisingLen":
+            ns["__len__"] = _raiser("__len__")
+        elif kind == "eqAll":
+            ns["__eq__"] = lambda self, o: True
+            ns["__hash__"] = lambda self: 0
+        elif kind == "eqNone":
+            ns["__eq__"] = lambda self, o: o is None or self is o
+            ns["__hash__"] = lambda self: 0
+        cls = _HOSTILE_CLASSES[(role, kind)] = type(f"H_{role}_{kind}", (), ns)
+    return cls()
+
+
+class _HostileTransformer:
+    pass
+
+
+def hostile_transformer(kind, fn):
+    base = type(hostile("default", kind))
+    cls = type("H_transformer_" + kind, (base,), {"__call__": lambda self, c, a: fn(c, a)})
+    return cls()
+
+
+def _h(cfg, role):
+    """the hostile kind asked for this role, if the (role, kind) pair is one a valid specification may contain"""
+    k = (cfg.get("hostile") or {}).get(role)
+    if k and (role, k) in HOSTILE_OK:
+        return k
+    return None
+
+
+# (role, kind) pairs that are accepted: all, except those listed in HOSTILE_EXCLUDED with the reason
+HOSTILE_ROLES = ["clsHook", "fldHook", "validator", "converter", "factory", "key", "default", "type", "metadata",
+                 "transformer"]
+# pairs the pinned tree itself is sensitive to (measured: with every other pair the outcome of 4000 specifications
+# is identical to the outcome with plain functions / values); they are NOT generated, see ASSUMPTIONS
+HOSTILE_EXCLUDED = {
+    "truth-tested (`a.on_setattr or …`, `if on_setattr and …`, `if validator and …`, `callable`/`bool` of keys and "
+    "converters): an object whose __bool__/__len__ raises makes the definition raise that exception":
+        [(r, k) for r in ("clsHook", "fldHook", "validator", "converter", "key") for k in ("raisingBool", "raisingLen")],
+    "truth-tested: a falsy hook object is dropped by add_setattr (`a.on_setattr or self._on_setattr`), so it is neither "
+    "run on assignment nor rejected next to an own __setattr__":
+        [(r, k) for r in ("clsHook", "fldHook") for k in ("falsyBool", "falsyLen")],
+    "compared with == (`on_setattr in (_DEFAULT_ON_SETATTR, validate, convert)`, `not in (None, NO_OP)`, converter "
+    "comparisons): a raising __eq__ propagates; an object equal to None / to every function is mistaken for them":
+        [("clsHook", "raisingEq"), ("clsHook", "eqAll"), ("clsHook", "eqNone"), ("converter", "raisingEq")],
+}
+HOSTILE_OK = {(r, k) for r in HOSTILE_ROLES for k in HOSTILE_KINDS} - {p for ps in HOSTILE_EXCLUDED.values() for p in ps}
+
+
 # ------------------------------------------------------------------------------------------ building
 def _field_kwargs(f, cfg):
     kw = {}
@@ -320,6 +422,25 @@ def _field_kwargs(f, cfg):
         kw["validator"] = _validator
     if f["converter"]:
         kw["converter"] = _converter
+    # hostile-but-valid stand-ins (harness-only variation: the model sees the same specification)
+    if cfg.get("hostile"):
+        if "default" in kw and _h(cfg, "default"):
+            kw["default"] = hostile("default", _h(cfg, "default"))
+        if "factory" in kw and _h(cfg, "factory"):
+            kw["factory"] = hostile("factory", _h(cfg, "factory"))
+        for k in ("cmp", "eq", "order"):
+            if kw.get(k) is _key and _h(cfg, "key"):
+                kw[k] = hostile("key", _h(cfg, "key"))
+        if kw.get("on_setattr") is _hook and _h(cfg, "fldHook"):
+            kw["on_setattr"] = hostile("fldHook", _h(cfg, "fldHook"))
+        if "type" in kw and _h(cfg, "type"):
+            kw["type"] = hostile("type", _h(cfg, "type"))
+        if "validator" in kw and _h(cfg, "validator"):
+            kw["validator"] = hostile("validator", _h(cfg, "validator"))
+        if "converter" in kw and _h(cfg, "converter"):
+            kw["converter"] = hostile("converter", _h(cfg, "converter"))
+        if _h(cfg, "metadata"):
+            kw["metadata"] = {"k": hostile("metadata", _h(cfg, "metadata"))}
     return kw
 
 
@@ -330,7 +451,7 @@ def _validator2(inst, a, v):
 def _make_field(f, cfg, reg=None):
     """`reg` collects the user containers handed to attrs: (label, object, shallow copy)"""
     kw = _field_kwargs(f, cfg)
-    if cfg.get("containers"):
+    if cfg.get("containers") and not cfg.get("hostile"):
         if f["validator"]:
             kw["validator"] = [_validator, _validator2]
         kw["metadata"] = {"k": f["name"], "l": [1]}
@@ -478,6 +599,8 @@ def _class_kwargs(case, cfg):
     on = case["onSetattr"]
     if on == "hook":
         kw["on_setattr"] = _hook_value(cfg.get("hookKind", "fn"), cls_level=True)
+        if kw["on_setattr"] is _hook and _h(cfg, "clsHook"):
+            kw["on_setattr"] = hostile("clsHook", _h(cfg, "clsHook"))
     elif on == "noop":
         kw["on_setattr"] = setters.NO_OP
     elif on == "validate":
@@ -488,6 +611,8 @@ def _class_kwargs(case, cfg):
         kw["on_setattr"] = None
     if case["transformer"] != TR_ID or cfg.get("identityTr"):
         kw["field_transformer"] = make_transformer(case["transformer"])
+        if _h(cfg, "transformer"):
+            kw["field_transformer"] = hostile_transformer(_h(cfg, "transformer"), kw["field_transformer"])
     if api != "define" and cfg.get("collectByMro"):
         kw["collect_by_mro"] = True
     return kw
@@ -890,6 +1015,7 @@ def dist(case, obs):
         "field_rule": _applies_any_field_rule(case),
         "touched": bool(obs.get("touched")) if isinstance(obs, dict) else "?",
         "mid": cfg.get("mid"),
+        "hostile": ",".join(sorted(set((cfg.get("hostile") or {}).values()))) or "none",
     }
 
 
@@ -964,6 +1090,19 @@ def all_deltas(c):
     return ds
 
 
+def rand_hostile(rng):
+    """one kind of unpleasantness for a random subset of the roles (or a different kind per role)"""
+    if rng.random() < 0.6:
+        k = rng.choice(HOSTILE_KINDS)
+        roles = HOSTILE_ROLES if rng.random() < 0.5 else rng.sample(HOSTILE_ROLES, rng.randrange(1, 5))
+        return {r: k for r in roles if (r, k) in HOSTILE_OK}
+    return {r: k for r in HOSTILE_ROLES for k in [rng.choice(HOSTILE_KINDS)] if (r, k) in HOSTILE_OK and rng.random() < 0.6}
+
+
+def all_hostile(kind):
+    return {r: kind for r in HOSTILE_ROLES if (r, kind) in HOSTILE_OK}
+
+
 def rand_cfg(rng):
     cfg = {
         "badHash": rng.randrange(4),
@@ -979,12 +1118,22 @@ def rand_cfg(rng):
         "emptyBase": rng.random() < 0.2,
         "containers": rng.random() < 0.4,
         "identityTr": rng.random() < 0.2,
+        "hostile": rand_hostile(rng) if rng.random() < 0.35 else None,
     }
+    if cfg["hostile"]:
+        cfg["hookKind"] = "fn"
     return cfg
 
 
 def with_cfg(c, rng):
-    return normalize(dict(c, cfg=rand_cfg(rng)))
+    cfg = rand_cfg(rng)
+    old = c.get("cfg") or {}
+    if old.get("hostile"):
+        cfg["hostile"] = old["hostile"]
+        cfg["hookKind"] = "fn"
+    if old.get("containers"):
+        cfg["containers"] = True
+    return normalize(dict(c, cfg=cfg))
 
 
 # ------------------------------------------------------------------------------------------ seeds
@@ -1110,6 +1259,23 @@ def rule_grid():
             yield M([A(annotated=True), Bf()])
             yield M([A(annotated=True, dflt=True), Bf()])
             yield M([A(bare=True, annotated=True, dflt=True), Bf(), fld("c", dflt=True)], frozen=True, ownSetattr=True)
+        # hostile-but-valid user objects in every role: valid specifications still define, contradictory ones are
+        # still rejected with the documented type
+        for kind in HOSTILE_KINDS:
+            hc = {"hostile": all_hostile(kind), "identityTr": True}
+            rich = [A(validator=True, converter=True, typeArg=not ann, **ann), Bf(dflt=True, eq="key", order="key", **ann),
+                    fld("c", factory=True, onSetattr="hook", **ann)]
+            yield M(rich, cfg=hc)
+            yield M(rich, cfg=hc, onSetattr="hook")
+            yield M(rich, cfg=hc, onSetattr="hook", transformer="reverse")
+            yield M(rich, [battr("p", dflt=True)], cfg=hc, kwOnly=True, transformer="kwOnlyAll")
+            yield M(rich, cfg=hc, frozen=True)                                  # field hook on frozen: ValueError
+            yield M(rich[:2], cfg=hc, frozen=True, onSetattr="hook")            # class hook on frozen: ValueError
+            yield M(rich[:2], cfg=hc, frozen=True, unsafeHash="t", cacheHash=True)
+            yield M(rich[:2], cfg=hc, onSetattr="hook", ownSetattr=True, autoDetect="t")   # ValueError
+            yield M(rich[:2], [battr("p")], cfg=hc, onSetattr="hook", baseFrozen=True)     # ValueError
+            yield M([A(dflt=True, **ann), Bf(**ann)], cfg=hc)                  # order: ValueError
+            yield M([A(dflt=True, factory=True, **ann)], cfg=hc)               # default + factory: ValueError
         # annotated attr.ib()/field() bodies (whatever the auto_attribs mode) x rules that fire after the
         # fields were collected: a failed decoration must not leave anything on the attr.ib() objects
         late = [dict(cacheHash=True), dict(cacheHash=True, unsafeHash="t", init="f"), dict(hash="bad"),
@@ -1403,7 +1569,7 @@ def gen_cases(tier, rng):
     # (2) the hand-listed grid: complete in thorough, a seeded third in quick
     grid = list(rule_grid())
     if tier == "quick":
-        grid = [c for c in grid if rng.random() < 0.2]
+        grid = [c for c in grid if rng.random() < 0.17]
     # (1a) seeds and every single-option change
     for s in sd:
         yield _tag(s, "seed")
@@ -1465,12 +1631,12 @@ def gen_cases(tier, rng):
                 yield _tag(with_cfg(c, rng) if rng.random() < 0.3 else c, "pair")
 
     def randoms():
-        n = 8000 if tier == "quick" else 600000
+        n = 7000 if tier == "quick" else 600000
         for _ in range(n):
             yield rand_case(rng)
 
     pg, rg = pairs(), randoms()
-    budget_pairs = 9000 if tier == "quick" else None
+    budget_pairs = 7500 if tier == "quick" else None
     produced = 0
     while True:
         alive = False
